@@ -272,6 +272,21 @@ class Program:
 
 # ----------------------------------------------------------------------------------------- statistics
 
+class _VarRef(Ref):
+    """storage of one resume-state variant of a lowered coroutine: .field(k) -> slot (variant, k)"""
+    __slots__ = ('store', 'variant')
+
+    def __init__(self, store, variant):
+        self.store, self.variant = store, variant
+        self.cont, self.key, self.proj = None, None, ()
+
+    def field(self, k):
+        return Ref(self.store, (self.variant, k))
+
+    def get(self):
+        raise Unmodelled('whole coroutine variant read')
+
+
 class Stats:
     def __init__(self):
         self.paths = self.queries = self.sat = self.unsat = self.pruned = self.steps = 0
@@ -535,7 +550,10 @@ class Exec:
                 else:
                     raise Unmodelled('deref of %r in %s' % (v, place.text))
             elif k == 'downcast':
-                pass
+                if p[1].startswith('variant#'):
+                    v = r.get()
+                    if type(v) is Adt and isinstance(v.extra, dict) and 'vars' in v.extra:
+                        r = _VarRef(v.extra['vars'], int(p[1][8:]))
             elif k == 'index':
                 idx = fr[p[1]]
                 cont = r.get()
@@ -746,6 +764,9 @@ class Exec:
             name = rv[1]
             if name.startswith('{'):
                 a = Adt(name, None, [self.operand(fr, op) for _, op in rv[2]])
+                if name.startswith('{coroutine@'):
+                    # lowered async fn / async block: resume state + variant-local storage (see asyncrt.py)
+                    a.extra = {'state': 0, 'vars': {}, 'parent': f}
                 return a
             key = rv[3]
             if key not in self.prog.struct_fields:
